@@ -603,12 +603,14 @@ def job_reqbody(job) -> report.JobResult:
     def fn():
         e = cur()
         n = 1 + e.choose(3, "nchunks")
-        kind = "json" if prog == "json" else "raw"
+        kind = "json" if prog in ("json", "json-bom") else "raw"
         chunks = C10.chunks_for(kind, n)
+        if prog == "json-bom":  # a UTF-8 byte order mark in front of the document: whatever the answer is, both stacks give the same
+            chunks = [b"\xef\xbb\xbf" + chunks[0]] + chunks[1:]
         empties = [bool(e.choose(2, f"empty{i}")) for i in range(n)] if kind == "raw" else [False] * n
         wire = [b"" if empties[i] else chunks[i] for i in range(n)]
         e.path_notes["wire"] = wire
-        ctype = "application/json" if prog == "json" else "application/octet-stream"
+        ctype = "application/json" if kind == "json" else "application/octet-stream"
         # WSGI: the server hands the non-empty chunks through wsgi.input.read()
         q = [c for c in wire if c]
 
@@ -621,7 +623,10 @@ def job_reqbody(job) -> report.JobResult:
         elif prog == "stream":
             wv = b"".join(wreq.stream())
         else:
-            wv = wreq.json
+            try:
+                wv = wreq.json
+            except HTTPException as ex:
+                wv = ("http", ex.status_code)
         msgs = [{"type": "http.request", "body": c, "more_body": i < n - 1} for i, c in enumerate(wire)]
 
         async def main():
@@ -634,7 +639,10 @@ def job_reqbody(job) -> report.JobResult:
                 return await areq.body
             if prog == "stream":
                 return b"".join([c async for c in areq.stream()])
-            return await areq.json
+            try:
+                return await areq.json
+            except HTTPException as ex:
+                return ("http", ex.status_code)
         import asyncio
         from engine.vloop import VLoop
         loop = VLoop()
@@ -724,7 +732,7 @@ def jobs(tier: str):
             out.append(dict(name=f"stream/{cls}/n{n}", family="stream", recipe=cls, cls=cls, items=n))
     for n in (1, 2):
         out.append(dict(name=f"stream/sse/n{n}+empty-event", family="stream", recipe="sse", cls="sse", items=n, with_empty_event=True))
-    for prog in ("body", "stream", "json"):
+    for prog in ("body", "stream", "json", "json-bom"):
         out.append(dict(name=f"reqbody/{prog}", family="reqbody", recipe=prog, prog=prog, weight=50))
     for l1, l2, lr, lp in [(2, 0, 1, 2), (2, 2, 1, 3), (0, 2, 2, 2), (2, 1, 0, 4)]:
         out.append(dict(name=f"apps/subpaths/p{l1}q{l2}r{lr}x{lp}", family="apps", recipe="subpaths", app="subpaths", l1=l1, l2=l2, lr=lr, lp=lp))
